@@ -576,3 +576,169 @@ class RedemptionValue(Job):
 
 
 JOBS["C42"] += [RedemptionValue(), RedemptionValue(roundtrip=True)]
+
+
+# =====================================================================================================
+# C10: fungible vault proof locking -- lock_amount / unlock_amount over a stubbed field store
+# =====================================================================================================
+LK = 3      # slot capacity of the locked-amounts map
+
+
+def field_store_overrides(job, fields):
+    """environment stub of the actor's field store: `fields` maps a payload type substring to a key of the job frame"""
+    def ok(ret_ty, v):
+        return _EnumV(ret_ty, 0, {0: [v]})
+
+    def which(callee):
+        hits = [k for t, k in fields.items() if t in callee]
+        if len(hits) != 1:
+            raise _models.Refuse("field store stub: unknown payload type in %s" % callee)
+        return hits[0]
+
+    def m_read(interp, path, args, ret_ty, callee):
+        return ok(ret_ty, path.frames["job"][which(callee)])
+
+    def m_write(interp, path, args, ret_ty, callee):
+        path.frames["job"][which(callee)] = _models.deref(interp, path, args[2])
+        return ok(ret_ty, _UnitV())
+    return [(_re.compile(r"as Into<u8>>::into$"), lambda i, p, a, r, c: IntV(0, "u8")),
+            (_re.compile(r"SystemActorApi<RuntimeError>>::actor_open_field$"), lambda i, p, a, r, c: ok(r, IntV(1, "u32"))),
+            (_re.compile(r"SystemFieldApi<RuntimeError>>::field_read_typed::<"), m_read),
+            (_re.compile(r"SystemFieldApi<RuntimeError>>::field_write_typed::<"), m_write),
+            (_re.compile(r"SystemFieldApi<RuntimeError>>::field_close$"), lambda i, p, a, r, c: ok(r, _UnitV())),
+            (_re.compile(r"FieldPayload::fully_update_and_into_latest_version$|FieldPayload>::from_content_source::<"),
+             lambda i, p, a, r, c: a[0])]
+
+
+class VaultLock(Job):
+    crate = "radix-engine"
+    query_timeout_s = 120
+
+    def __init__(self, op):
+        self.op = op
+        self.name = "c10m::fungible_vault_%s_amount" % op
+        self.what = {
+            "lock": "FungibleVaultBlueprint::lock_amount from an arbitrary vault state (any liquid balance, <= 2 distinct "
+                    "locked amounts with any counts) and any amount: it succeeds exactly when the amount is already covered "
+                    "by the largest lock or the liquid balance covers the difference; then only that difference leaves the "
+                    "liquid balance (overlapping proofs lock the maximum, not the sum), the lock count of the amount grows "
+                    "by one and liquid + locked is conserved; a failed lock changes nothing",
+            "unlock": "FungibleVaultBlueprint::unlock_amount of a locked amount from an arbitrary vault state: its count "
+                      "drops by one, the liquid balance regains exactly the drop of the largest lock (everything once no "
+                      "proof is left) and liquid + locked is conserved; unlocking an amount that is not locked panics",
+        }[op]
+        self.cover_labels = ["ok", "takes from liquid", "err insufficient"] if op == "lock" else ["ok", "returns to liquid", "count stays positive"]
+        if op == "unlock":
+            self.allow_panic = r"not locked|expect failed"
+
+    @property
+    def env_overrides(self):
+        return field_store_overrides(self, {"LockedBalanceFieldPayload": "locked", "VaultBalanceFieldPayload": "balance"})
+
+    def locate(self, prog):
+        return find_function(prog, "fungible/fungible_vault.rs", self.op + "_amount", nparams=2)
+
+    def inputs(self):
+        d = {k: z3.Int(k) for k in ["B", "a", "q"] + ["%s%d" % (f, i) for i in range(LK) for f in ("p", "k", "c")]}
+        pre = [d["B"] >= 0, d["B"] <= 10 ** 40, d["a"] >= 0, d["a"] <= 10 ** 40, d["q"] >= 0, d["q"] <= 10 ** 40]
+        for i in range(LK):
+            pre += [d["p%d" % i] >= 0, d["p%d" % i] <= 1, d["k%d" % i] >= 0, d["k%d" % i] <= 10 ** 40, d["c%d" % i] >= 1,
+                    d["c%d" % i] <= 1000]
+            for j in range(i):
+                pre.append(z3.Implies(z3.And(d["p%d" % i] == 1, d["p%d" % j] == 1), d["k%d" % i] != d["k%d" % j]))
+        if self.op == "lock":
+            pre.append(z3.Sum([d["p%d" % i] for i in range(LK)]) < LK)
+        return d, pre
+
+    def setup_path(self, path, inp):
+        d = {k: lit(v) for k, v in inp.items()}
+        self._q = d["q"]
+        slots = [StructV("Slot", [dec_v(d["k%d" % i]), IntV(d["c%d" % i], "usize"), _BoolV(d["p%d" % i] == 1)]) for i in range(LK)]
+        path.frames["job"] = {"api": StructV("Api", []),
+                              "locked": StructV("LockedFungibleResource", [StructV("SymMap<Decimal, usize>", slots)]),
+                              "balance": StructV("LiquidFungibleResource", [dec_v(d["B"])])}
+
+    def args(self, inp):
+        return [dec_v(lit(inp["a"])), _RefV("&mut Y", "job", "api", ())]
+
+    @staticmethod
+    def _obs(slots_terms, q):
+        """(count of q, largest locked amount) from [(present, key, count)]"""
+        cnt = z3.Sum([z3.If(z3.And(p, k == q), c, 0) for p, k, c in slots_terms])
+        mx = z3.IntVal(0)
+        for p, k, c in slots_terms:
+            mx = z3.If(z3.And(p, k > mx), k, mx)
+        return cnt, mx
+
+    def extract_outcome(self, o):
+        fr = o.path.frames["job"]
+        q = self._q
+        slots = [(s.fields[2].term, unwrap_int(s.fields[0]), s.fields[1].term) for s in fr["locked"].fields[0].fields]
+        cnt, mx = self._obs(slots, q)
+        return {"ok": o.value.discr == 0, "B1": unwrap_int(fr["balance"].fields[0]), "cq": cnt, "max1": mx}
+
+    def native(self, nat, vals):
+        ents = [(int(vals["k%d" % i]), int(vals["c%d" % i])) for i in range(LK) if int(vals["p%d" % i]) == 1]
+        toks = [self.op, vals["a"], vals["B"], len(ents)]
+        for k, c in ents:
+            toks += [k, c]
+        t = nat.call("vault_lock", *toks).split()
+        if t[0] == "panic":
+            return {"panic": True, "msg": " ".join(t[1:])}
+        n = int(t[2])
+        es = [(int(t[3 + 2 * i]), int(t[4 + 2 * i])) for i in range(n)]
+        q = int(vals["q"])
+        return {"panic": False, "ok": t[0] == "ok", "B1": int(t[1]), "cq": sum(c for k, c in es if k == q),
+                "max1": max([k for k, c in es] or [0])}
+
+    def post(self, inp, res):
+        d = {k: lit(v) for k, v in inp.items()}
+        pre_slots = [(d["p%d" % i] == 1, d["k%d" % i], d["c%d" % i]) for i in range(LK)]
+        cq0, max0 = self._obs(pre_slots, d["q"])
+        ca0, _ = self._obs(pre_slots, d["a"])
+        if res.get("panic") is not None and not isinstance(res.get("panic"), bool) and z3.is_true(z3.simplify(lit(res["panic"]))) \
+                or res.get("panic") is True:
+            return [("unlock panics only for an amount that is not locked", ca0 == 0)]
+        r = {k: lit(v) for k, v in res.items() if not isinstance(v, str)}
+        ok = r["ok"]
+        if self.op == "lock":
+            need = z3.If(d["a"] > max0, d["a"] - max0, 0)
+            return [("succeeds exactly when the liquid balance covers what the largest lock does not", ok == (need <= d["B"])),
+                    ("only the part not covered by the largest lock leaves the liquid balance", z3.Implies(ok, r["B1"] == d["B"] - need)),
+                    ("the lock count of the amount grows by one, other counts are unchanged",
+                     z3.Implies(ok, r["cq"] == cq0 + z3.If(d["q"] == d["a"], 1, 0))),
+                    ("liquid + largest lock is conserved", z3.Implies(ok, r["B1"] + r["max1"] == d["B"] + max0)),
+                    ("a failed lock changes nothing", z3.Implies(z3.Not(ok), z3.And(r["B1"] == d["B"], r["cq"] == cq0)))]
+        return [("unlocking a locked amount succeeds", z3.Implies(ca0 > 0, ok)),
+                ("its count drops by one, other counts are unchanged", z3.Implies(ok, r["cq"] == cq0 - z3.If(d["q"] == d["a"], 1, 0))),
+                ("the liquid balance regains exactly the drop of the largest lock", z3.Implies(ok, r["B1"] == d["B"] + max0 - r["max1"])),
+                ("liquid + largest lock is conserved", z3.Implies(ok, r["B1"] + r["max1"] == d["B"] + max0))]
+
+    def covers(self, inp, res):
+        d = {k: lit(v) for k, v in inp.items()}
+        if "ok" not in res:
+            return []
+        ok = lit(res["ok"])
+        if self.op == "lock":
+            return [("ok", ok), ("takes from liquid", z3.And(ok, lit(res["B1"]) < d["B"])), ("err insufficient", z3.Not(ok))]
+        return [("ok", ok), ("returns to liquid", z3.And(ok, lit(res["B1"]) > d["B"])),
+                ("count stays positive", z3.And(ok, d["q"] == d["a"], lit(res["cq"]) > 0))]
+
+    def vectors(self, rng):
+        out = []
+        for _ in range(40):
+            d = {"B": rng.choice([0, 5, 10, 10 ** 20])}
+            keys = rng.sample([3, 5, 8, 10 ** 19], LK)
+            npres = rng.randrange(0, LK if self.op == "lock" else LK + 1)
+            for i in range(LK):
+                d["p%d" % i], d["k%d" % i], d["c%d" % i] = (1 if i < npres else 0), keys[i], rng.choice([1, 2, 7])
+            present = keys[:npres]
+            d["a"] = rng.choice(present) if (self.op == "unlock" and present) else rng.choice(present + [1, 4, 9, 12, 10 ** 20 + 7])
+            if self.op == "unlock" and not present:
+                continue
+            d["q"] = rng.choice(present + [d["a"], 77])
+            out.append(d)
+        return out
+
+
+JOBS["C10"] = [VaultLock("lock"), VaultLock("unlock")]
